@@ -10,8 +10,11 @@ numerators G_i and the probe (hence W) are captured from single-pixel calls of t
 Property predicates evaluated on the implementation (the failing-input search): batch invariance
 for every b in 1..num_bf, linearity in the stack, sub-mask recombination (single-pass kernels,
 aperture weights), the two parallax limits against independent closed forms, alias table,
-repeat-call determinism, and call histories on one object (plain call / calls with per-call overrides /
-plain call again == first == fresh object; zero-aberration parallax limit after override calls)."""
+repeat-call determinism, and call histories on one object: EVERY call of a history (plain, per-call overrides of
+rotation / every aberration coefficient drawn from {random, exactly 0.0, 0, -0.0, stored, negated}, fixed-value grid
+search) must equal a fresh object's single call with the same effective hyper-parameters, the effective
+hyper-parameters must be the requested ones (exact stream vs the model state machine + independent tracker), and the
+parallax closed form is evaluated with the REQUESTED aberrations and rotation."""
 import math
 
 import numpy as np
@@ -775,97 +778,233 @@ def run_crop_cases(ctx, rng):
 
 
 # ---------------------------------------------------------------------------------------
-# histories on ONE object: the result is a function of (stack, mask, hyper-parameters) only, not of earlier calls
+# histories on ONE object: the result of EVERY call is a function of (stack, mask, effective hyper-parameters) only
+
+GAMMA_KERNELS = ("ssb", "obf", "mf")
+CANON = {"defocus": ("C10", -1.0), "astigmatism": ("C12", 1.0), "astigmatism_angle": ("phi12", 1.0), "coma": ("C21", 1.0),
+         "coma_angle": ("phi21", 1.0), "Cs": ("C30", 1.0), "C5": ("C50", 1.0)}
+
+
+def canon_ab(items):
+    """independent re-statement of the aberration conventions: aliases resolved in order, defocus = -C10"""
+    out = {}
+    for k, v in items:
+        c, sgn = CANON.get(k, (k, 1.0))
+        out[c] = -float(v) if sgn < 0 else float(v)
+    return out
+
+
+def draw_value(rng, stored, rand):
+    """random / exactly 0.0 / int 0 / -0.0 / equal to the stored value / its negation"""
+    kind = rng.weighted([("random", 3), ("zero", 2), ("int0", 1), ("negzero", 1), ("equal", 2), ("negated", 2)])
+    if kind == "zero":
+        return 0.0
+    if kind == "int0":
+        return 0
+    if kind == "negzero":
+        return -0.0
+    if kind == "equal" and stored is not None:
+        return stored
+    if kind == "negated" and stored is not None:
+        return -stored
+    return rand()
+
 
 def gen_history(rng, idx):
     case = gen_case(rng, idx)
     lam = wavelength(case["E"])
     amax = case["semiangle"] * 1e-3
-    kind = "prlx-zero" if idx % 3 == 0 else "generic"
-    if kind == "prlx-zero":     # the analytic limit is evaluated AFTER calls that overrode the aberrations
-        case.update({"kernel": "prlx", "alias": rand_case_name(rng, rng.choice(ALIASES["prlx"])), "ab": {}, "ab_kind": "none",
+    kind = ("prlx-closed", "rotation-sweep", "generic")[idx % 3]
+    f32 = lambda x: float(np.float32(x))  # noqa
+    r10 = lambda: f32(rng.choice([-1, 1]) * rng.uniform(1.0, 4.0) * lam / (amax * amax))  # noqa
+    r12 = lambda: f32(rng.choice([-1, 1]) * rng.uniform(1.0, 3.0) * lam / (amax * amax))  # noqa
+    rphi = lambda: f32(rng.uniform(-1.5, 1.5))  # noqa
+    r21 = lambda: f32(rng.choice([-1, 1]) * rng.uniform(2.0, 6.0) * lam / amax ** 3)  # noqa
+    rrot = lambda: rng.uniform(-3.1, 3.1)  # noqa
+    if rng.chance(0.8) and case["rot"] == 0.0:
+        case["rot"] = rrot()
+    if kind == "prlx-closed":
+        ab = rng.choice([{}, {"C10": r10()}, {"C12": r12(), "phi12": rphi()}, {"C10": r10(), "C12": r12(), "phi12": rphi()}])
+        case.update({"kernel": "prlx", "alias": rand_case_name(rng, rng.choice(ALIASES["prlx"])), "ab": ab, "ab_kind": "closed",
                      "flip": False, "ql": None, "qh": None})
+    elif kind == "rotation-sweep":
+        ab = rng.choice([{"C12": r12(), "phi12": rphi()}, {"C10": r10(), "C12": r12(), "phi12": rphi()}, {"C21": r21(), "phi21": rphi()}])
+        kern = GAMMA_KERNELS[(idx // 3) % 3]
+        case.update({"kernel": kern, "alias": rand_case_name(rng, rng.choice(ALIASES[kern])), "ab": ab, "ab_kind": "nonsymmetric"})
     n = len(case["sub"]) if case["sub"] is not None else len(case["pix"])
-    steps = []
-    for _ in range(rng.randint(1, 3)):
-        c10 = float(np.float32(rng.choice([-1, 1]) * rng.uniform(1.0, 4.0) * lam / (amax * amax)))
-        c12 = float(np.float32(rng.choice([-1, 1]) * rng.uniform(1.0, 3.0) * lam / (amax * amax)))
-        phi = float(np.float32(rng.uniform(-1.5, 1.5)))
-        ab = rng.choice([{"C10": c10}, {"defocus": c10}, {"C12": c12, "phi12": phi}, {"astigmatism": c12, "astigmatism_angle": phi},
-                         {"C10": c10, "C12": c12, "phi12": phi}, {"C30": float(np.float32(c10 / (amax * amax)))}])
-        st = {"override_aberration_coefs": ab}
-        if rng.chance(0.5):
-            st["override_rotation_angle"] = rng.uniform(-3.1, 3.1)
-        if rng.chance(0.5):
-            st["deconvolution_kernel"] = rand_case_name(rng, rng.choice([a for al in ALIASES.values() for a in al]))
-        if rng.chance(0.4):
-            st["upsampling_factor"] = rng.randint(1, 3)
-        if rng.chance(0.3):
-            st["q_lowpass"] = rng.uniform(0.4, 1.2) * 0.5 / max(case["sx"], case["sy"])
-        if rng.chance(0.3):
-            st["parallax_flip_phase"] = rng.chance(0.5)
-        if rng.chance(0.3):
-            st["matched_filter_norm_epsilon"] = rng.choice([0.01, 1.0])
-        if rng.chance(0.3):
-            st["full_mask"] = True
-        st["max_batch_size"] = rng.randint(1, n)
+    n_full = len(case["pix"])
+    stored = canon_ab(case["ab"].items())
+    rand_for = {"C10": r10, "defocus": r10, "C12": r12, "astigmatism": r12, "phi12": rphi, "astigmatism_angle": rphi,
+                "C21": r21, "coma": r21, "phi21": rphi, "coma_angle": rphi, "C30": lambda: f32(r10() / (amax * amax))}
+    steps = [{"kind": "call", "ab": None, "rot": None}]                 # the plain call
+    for _ in range(rng.randint(2, 4)):
+        st = {"kind": "call", "ab": None, "rot": None}
+        if kind == "rotation-sweep":
+            st["rot"] = draw_value(rng, case["rot"], rrot)
+            if rng.chance(0.3):
+                st["ab"] = [[k, v] for k, v in case["ab"].items()]        # the same set, given again
+        else:
+            if kind == "generic" and rng.chance(0.25):
+                st["kind"] = "grid"
+            if rng.chance(0.7):
+                st["rot"] = draw_value(rng, case["rot"], rrot)
+            if rng.chance(0.75) or st["kind"] == "grid":
+                pool = (["C10", "defocus", "C12", "phi12", "astigmatism", "astigmatism_angle"] if kind == "prlx-closed" else
+                        ["C10", "defocus", "C12", "phi12", "astigmatism", "astigmatism_angle", "C21", "phi21", "coma", "coma_angle", "C30"])
+                keys = rng.sample(pool, rng.randint(1, 3))
+                st["ab"] = [[k, draw_value(rng, (stored.get(CANON.get(k, (k, 1))[0]) if k not in CANON else
+                                                  (-stored["C10"] if k == "defocus" and "C10" in stored else stored.get(CANON[k][0]))),
+                                           rand_for[k])] for k in keys]
+            if kind == "generic":
+                if rng.chance(0.5):
+                    st["alias"] = rand_case_name(rng, rng.choice([a for al in ALIASES.values() for a in al]))
+                if rng.chance(0.3):
+                    st["ql"] = rng.uniform(0.4, 1.2) * 0.5 / max(case["sx"], case["sy"])
+                if rng.chance(0.3):
+                    st["flip"] = rng.chance(0.5)
+                if rng.chance(0.3):
+                    st["eps"] = rng.choice([0.01, 1.0])
+            if rng.chance(0.4):
+                st["u"] = rng.randint(1, 3)
+            if rng.chance(0.3):
+                st["full_mask"] = True
+        st["b"] = rng.randint(1, n_full if st.get("full_mask") else n)
         steps.append(st)
-    return {"history": {"kind": kind, "steps": steps, "b": rng.randint(1, n)}, **case}
+    steps.append({"kind": "call", "ab": None, "rot": None})                # the plain call again
+    steps[0]["b"] = steps[-1]["b"] = rng.randint(1, n)
+    return {"history": {"kind": kind, "steps": steps}, **case}
 
 
-def run_history(ctx, hc):
+def run_history(ctx, drv, hc):
+    import torch
     case = {k: v for k, v in hc.items() if k != "history"}
     h = hc["history"]
-    kernel = case["kernel"]
     r, c = case["scan"]
     n_full = len(case["pix"])
     stack = gen_stack(case["stack_seed"], n_full, r, c, case["stack_kind"])
     dp = make_dp(case, stack)
+    state = dp.hyperparameter_state
+    gpts = tuple(int(x) for x in dp.gpts)
     sub = case["sub"] if case["sub"] is not None else list(range(n_full))
-    submask = submask_array(dp, sub) if case["sub"] is not None else None
-    n = len(sub)
-    R0 = recon(dp, case, bf_mask=submask, b=h["b"]).reshape(n, -1)
-    for st in h["steps"]:
-        kw = {k: v for k, v in st.items() if k != "full_mask"}
-        recon(dp, case, bf_mask=None if st.get("full_mask") else submask, b=kw.pop("max_batch_size"), **kw)
-    R2 = recon(dp, case, bf_mask=submask, b=h["b"]).reshape(n, -1)
-    fresh = make_dp(case, stack)
-    R3 = recon(fresh, case, bf_mask=submask_array(fresh, sub) if case["sub"] is not None else None, b=h["b"]).reshape(n, -1)
-    ii, jj = __import__("torch").nonzero(dp.bf_mask, as_tuple=True)
-    pix = [(int(ii[s]), int(jj[s])) for s in sub]
-    wts, _ = aperture_weights(case, tuple(int(x) for x in dp.gpts), pix)
-    W = max(sum(wts), 1e-30)
-    dev = stack[sub].astype(np.float64) - stack[sub].astype(np.float64).mean(axis=(1, 2), keepdims=True)
-    floor = 0.05 * maxabs(dev) / W
-    ctx.count()
-    ctx.dist[f"history:{h['kind']}-{kernel}-{len(h['steps'])}steps"] += 1
-    for name, other in (("the same call before the override calls", R0), ("a fresh object", R3)):
-        ok, e = close(R2, other, TOL_BATCH, floor)
-        ctx.stat_max("history_rel", e)
-        if not ok:
-            ctx.pred_fail(f"history-{kernel}", "reconstruct() after calls with per-call overrides differs from " + name +
-                          " (the result depends on the call history of the object)", hc,
-                          observed={"rel_diff": e, **summarize(R2)}, required=summarize(other))
-            break
-    if h["kind"] == "prlx-zero":
-        u = case["u"]
-        want = np.zeros((u * r, u * c))
-        for t in range(n):
-            want[::u, ::u] += dev[t]
-        want = (want / W).ravel()
-        err = maxabs(R2.sum(axis=0) - want) / max(float(np.abs(dev).sum(axis=0).max()) / W, 1e-30)
-        ctx.stat_max("history_parallax_zero_rel", err)
+    ii, jj = torch.nonzero(dp.bf_mask, as_tuple=True)
+    lam = wavelength(case["E"])
+    # independent tracker of the stored hyper-parameters
+    initial_ab, initial_rot = canon_ab(case["ab"].items()), case["rot"]
+    opt_ab, opt_rot = {}, None
+    bits = lambda d: [[k, fl([v])[0]] for k, v in d.items()]  # noqa
+    fb = lambda x: None if x is None else fl([float(x)])[0]  # noqa
+    model = drv.ask({"op": "history", "initial_ab": bits(case["ab"]), "initial_rot": fb(case["rot"]),
+                     "steps": [{"kind": st["kind"], "ab": None if st["ab"] is None else [[k, fl([v])[0]] for k, v in st["ab"]],
+                                "rot": fb(st["rot"])} for st in h["steps"]]})
+    if "ok" not in model:
+        raise RuntimeError(f"driver: {model}")
+    ctx.dist[f"history:{h['kind']}-{case['kernel']}"] += 1
+    for t, st in enumerate(h["steps"]):
+        rows = list(range(n_full)) if st.get("full_mask") else sub
+        mask = None if (st.get("full_mask") or case["sub"] is None) else submask_array(dp, sub)
+        sc = dict(case, u=st.get("u", case["u"]), ql=st.get("ql", case["ql"]), flip=st.get("flip", case["flip"]),
+                  eps=st.get("eps", case["eps"]), alias=st.get("alias", case["alias"]))
+        # requested (effective) hyper-parameters of this step
+        stored_ab = dict(initial_ab)
+        stored_ab.update(opt_ab)
+        if st["kind"] == "grid":
+            opt_ab = dict(initial_ab)
+            opt_ab.update(canon_ab(st["ab"]))
+            opt_rot = st["rot"]
+            eff_ab = dict(initial_ab)
+            eff_ab.update(opt_ab)
+            eff_rot = opt_rot if opt_rot is not None else initial_rot
+        else:
+            eff_ab = dict(stored_ab)
+            if st["ab"] is not None:
+                eff_ab.update(canon_ab(st["ab"]))
+            eff_rot = st["rot"] if st["rot"] is not None else (opt_rot if opt_rot is not None else initial_rot)
+        # run the step on the history object
+        if st["kind"] == "grid":
+            dp.grid_search_hyperparameters(
+                aberration_coefs={k: v for k, v in st["ab"]}, rotation_angle=st["rot"], verbose=False,
+                bf_mask=mask, upsampling_factor=sc["u"], max_batch_size=st["b"], deconvolution_kernel=sc["alias"],
+                q_highpass=sc["qh"], q_lowpass=sc["ql"], butterworth_order=sc["order"],
+                matched_filter_norm_epsilon=sc["eps"], parallax_flip_phase=sc["flip"])
+            got = dp.corrected_stack.detach().double().numpy().copy().reshape(len(rows), -1)
+            real_eff = {"ab": bits(state.current_aberrations(None)), "rot": fb(state.current_rotation_angle(None))}
+        else:
+            over_ab = None if st["ab"] is None else {k: v for k, v in st["ab"]}
+            real_eff = {"ab": bits(state.current_aberrations(over_ab)), "rot": fb(state.current_rotation_angle(st["rot"]))}
+            got = recon(dp, sc, bf_mask=mask, b=st["b"], override_aberration_coefs=over_ab,
+                        override_rotation_angle=st["rot"]).reshape(len(rows), -1)
+        real_state = {"initial_ab": bits(state.initial_aberrations), "optimized_ab": bits(state.optimized_aberrations),
+                      "initial_rot": fb(state.initial_rotation_angle), "optimized_rot": fb(state.optimized_rotation_angle)}
         ctx.count()
-        if not err <= TOL_LIN:
-            ctx.pred_fail("history-prlx-zero", "after calls that overrode the aberrations, the zero-aberration parallax "
-                          "reconstruction != sum of mean-subtracted virtual images / aperture weight", hc,
-                          observed={"rel_diff": err, **summarize(R2.sum(axis=0))}, required=summarize(want))
+        ctx.dist[f"history-step:{st['kind']}" + ("+ab" if st["ab"] is not None else "") + ("+rot" if st["rot"] is not None else "")] += 1
+        if st["rot"] is not None and float(st["rot"]) == 0.0:
+            ctx.dist["history-step:rotation-override-exactly-zero"] += 1
+        if st["ab"] is not None and any(float(v) == 0.0 for _, v in st["ab"]):
+            ctx.dist["history-step:aberration-override-exactly-zero"] += 1
+        # (1) exact stream: model state machine vs the real HyperparameterState
+        m = model["ok"][t]
+        if m["effective"] != real_eff or m["state"] != real_state:
+            ctx.disagree("hyperparameter-state", dict(hc, step=t), m, {"effective": real_eff, "state": real_state},
+                         note=f"step {t} ({st['kind']})")
+        # (2) predicate: the effective hyper-parameters are the requested ones
+        want_eff = {"ab": sorted(bits(eff_ab)), "rot": fb(eff_rot)}
+        if {"ab": sorted(real_eff["ab"]), "rot": real_eff["rot"]} != want_eff:
+            ctx.pred_fail("history-effective", f"step {t}: the hyper-parameters reconstruct resolves are not the requested ones "
+                          "(stored values overridden per call; an explicitly given 0 is a value)", dict(hc, step=t),
+                          observed={"ab": dict(state.current_aberrations(None)) if st["kind"] == "grid" else
+                                    dict(state.current_aberrations(over_ab)),
+                                    "rot": real_eff["rot"] and unfl([real_eff["rot"]])[0]},
+                          required={"ab": eff_ab, "rot": float(eff_rot)})
+        # (3) predicate: equal to a single call on a fresh object with the same effective hyper-parameters
+        fc = dict(sc, ab=eff_ab, rot=eff_rot)
+        fresh = make_dp(fc, stack)
+        fmask = None if (st.get("full_mask") or case["sub"] is None) else submask_array(fresh, sub)
+        want = recon(fresh, fc, bf_mask=fmask, b=st["b"]).reshape(len(rows), -1)
+        pix = [(int(ii[s_]), int(jj[s_])) for s_ in rows]
+        wts, _ = aperture_weights(fc, gpts, pix)
+        W = max(sum(wts), 1e-30)
+        dev = stack[rows].astype(np.float64) - stack[rows].astype(np.float64).mean(axis=(1, 2), keepdims=True)
+        floor = 0.05 * maxabs(dev) / W
+        ok, e = close(got, want, TOL_BATCH, floor)
+        ctx.stat_max("history_vs_fresh_rel", e)
+        if not ok:
+            kern = dp._normalize_kernel_name(sc["alias"])
+            ctx.pred_fail(f"history-{kern}", f"step {t} of a call history on one object differs from the same call on a fresh "
+                          "object with the same effective hyper-parameters (the result depends on earlier calls)", dict(hc, step=t),
+                          observed={"rel_diff": e, "effective": {"ab": eff_ab, "rot": float(eff_rot)}, **summarize(got)},
+                          required=summarize(want))
+            break
+        # (4) parallax closed form with the REQUESTED values
+        if h["kind"] == "prlx-closed" and sum(wts) >= 0.5:
+            u = sc["u"]
+            ans = drv.ask({"op": "prlx_closed", "wavelength": fl([lam])[0], "rsx": fl([case["rs"]])[0], "rsy": fl([case["rs"]])[0],
+                           "det_rows": gpts[0], "det_cols": gpts[1], "rotation": fl([float(eff_rot)])[0],
+                           "c10": fl([eff_ab.get("C10", 0.0)])[0], "c12": fl([eff_ab.get("C12", 0.0)])[0],
+                           "phi12": fl([eff_ab.get("phi12", 0.0)])[0], "r": r, "c": c, "sx": fl([case["sx"]])[0],
+                           "sy": fl([case["sy"]])[0], "u": u, "W": fl([sum(wts)])[0], "pix_i": [p_[0] for p_ in pix],
+                           "pix_j": [p_[1] for p_ in pix], "vs": [fl(stack[s_]) for s_ in rows]})
+            if "ok" not in ans:
+                raise RuntimeError(f"driver: {ans}")
+            cf = unfl(ans["ok"]["bf"])
+            shifts = [unfl(x) for x in ans["ok"]["shifts_px"]]
+            pcond = max(1.0, max(math.pi * (abs(float(x[0])) + abs(float(x[1]))) for x in shifts) / 4.0)
+            err = maxabs(got.sum(axis=0) - cf) / max(float(np.abs(dev).sum(axis=0).max()) / W, 1e-30)
+            ctx.stat_max("history_parallax_closed_form_rel_over_cond", err / pcond)
+            ctx.count()
+            if not err <= TOL_LIN * pcond:
+                zero = all(eff_ab.get(k, 0.0) == 0.0 for k in ("C10", "C12"))
+                ctx.pred_fail("history-prlx-" + ("zero" if zero else "shift"),
+                              f"step {t}: parallax != sum of the mean-subtracted images translated by the geometric shift for the "
+                              "REQUESTED aberrations and rotation, / aperture weight", dict(hc, step=t),
+                              observed={"rel_diff": err, "effective": {"ab": eff_ab, "rot": float(eff_rot)}, **summarize(got.sum(axis=0))},
+                              required=summarize(cf))
+                break
 
 
-def run_histories(ctx, rng):
-    for idx in range(ctx.n(10, 60)):
+def run_histories(ctx, drv, rng):
+    for idx in range(ctx.n(12, 90)):
         hc = gen_history(rng.fork(idx), idx)
-        guarded(ctx, hc, run_history, ctx, hc)
+        guarded(ctx, hc, run_history, ctx, drv, hc)
 
 
 # ---------------------------------------------------------------------------------------
@@ -940,7 +1079,7 @@ def run(ctx):
             rng = ctx.rng.fork(idx)
             case = gen_case(rng, idx)
             guarded(ctx, case, run_problem, ctx, drv, case)
-        run_histories(ctx, ctx.rng.fork(997))
+        run_histories(ctx, drv, ctx.rng.fork(997))
     finally:
         drv.close()
 
@@ -959,7 +1098,7 @@ def replay(ctx, rep):
         elif "crop_case" in case:
             run_crop_case(ctx, case["crop_case"])
         elif "history" in case:
-            run_history(ctx, case)
+            run_history(ctx, drv, {k: v for k, v in case.items() if k != "step"})
         elif case.get("prlx_case"):
             # the parallax sub-case is re-derived from the generating problem
             n_full = len(case["pix"])
